@@ -110,3 +110,36 @@ mod tests {
 		}
 	}
 }
+
+#[cfg(test)]
+mod harvest_tests {
+	use crate::engine::{harvested, wire_types, Env};
+	use crate::reader::Chunking;
+
+	#[test]
+	fn wire_type_table_and_harvest() {
+		simcore::runner::install_panic_hook();
+		let t = wire_types();
+		assert_eq!(t.len(), crate::msgs::NUM_TYPES as usize);
+		assert_eq!(t[0], 16); // init
+		assert_eq!(t[3], 18); // ping
+		assert_eq!(t[30], 128); // update_add_htlc
+		let mut sorted = t.clone();
+		sorted.sort();
+		sorted.dedup();
+		assert_eq!(sorted.len(), t.len());
+		// a ping with 2 padding bytes: num_pong_bytes=1, byteslen=2, 00 00
+		let a = harvested(18, &[0, 1, 0, 2, 0, 0], Chunking::One).unwrap();
+		let mut env = Env::new("stream", 0);
+		assert!(env.apply(&a));
+		let o = env.finish(serde_json::Value::Null, "stream");
+		assert!(o.violations.is_empty(), "{:?}", o.violations);
+		// a ping that promises 3 padding bytes but carries 2 does not decode
+		let a = harvested(18, &[0, 1, 0, 3, 0, 0], Chunking::All).unwrap();
+		let mut env = Env::new("stream", 0);
+		env.apply(&a);
+		let o = env.finish(serde_json::Value::Null, "stream");
+		assert_eq!(o.violations.len(), 1);
+		assert!(harvested(12345, &[], Chunking::All).is_none());
+	}
+}
